@@ -154,7 +154,7 @@ func VerifCompressRoundTrip() {
 // VerifDecompressConforming (H3): any conforming server stream — B blocks, each cut into
 // chunks of arbitrary sizes — decompresses to the concatenated payload.
 func VerifDecompressConforming() {
-	codec := &vCodec{chunk: 1 << 20, maxEnc: verifParam("ENC")}
+	codec := &vCodec{chunk: uint32(verifParam("CHUNK")), maxEnc: verifParam("ENC")} // the server cuts chunks at its own size
 	c := &compressor{Codec: codec}
 	var stream, payload []byte
 	nblocks := verifChoose(verifParam("B") + 1)
